@@ -10,7 +10,7 @@ use eyeball::{ObservableWriteGuard, SharedObservable, Subscriber};
 use futures_core::Stream;
 use std::pin::Pin;
 use std::sync::atomic::{AtomicU64, AtomicUsize, Ordering as AO};
-use std::sync::{Arc, Barrier, Mutex};
+use std::sync::{Arc, Mutex};
 use std::task::{Context, Poll, Waker};
 
 static CLOCK: AtomicU64 = AtomicU64::new(0);
@@ -34,7 +34,7 @@ pub fn run_line(line: &str, out: &mut String) {
     let ob = SharedObservable::new(val(0));
     // subscriber k is used by exactly one thread (the generator guarantees it)
     let subs: Vec<Arc<Mutex<Subscriber<Val>>>> = (0..nsubs).map(|_| Arc::new(Mutex::new(ob.subscribe()))).collect();
-    let barrier = Arc::new(Barrier::new(n));
+    let barrier = Arc::new(AtomicUsize::new(0));
     let records: Arc<Mutex<Vec<String>>> = Arc::new(Mutex::new(vec![]));
     let guard_bad = Arc::new(AtomicUsize::new(0));
     let mut handles = vec![];
@@ -47,7 +47,11 @@ pub fn run_line(line: &str, out: &mut String) {
         handles.push(std::thread::spawn(move || {
             let cw = Arc::new(CountWaker(AtomicUsize::new(0)));
             let waker = Waker::from(cw);
-            barrier.wait();
+            // spin barrier: start the threads as close together as possible
+            barrier.fetch_add(1, AO::SeqCst);
+            while barrier.load(AO::SeqCst) < n {
+                std::hint::spin_loop();
+            }
             let mut local = vec![];
             for (i, op) in prog.iter().enumerate() {
                 let inv = stamp();
@@ -128,6 +132,24 @@ pub fn run_line(line: &str, out: &mut String) {
         h.join().unwrap();
     }
     let fin = show(ob.get());
+    // after the writers have finished: every subscriber is polled once more (it must deliver the
+    // final value unless it has already handed it out) - these polls are part of the history
+    let cw = Arc::new(CountWaker(AtomicUsize::new(0)));
+    let waker = Waker::from(cw);
+    let mut finals = vec![];
+    for (k, s) in subs.iter().enumerate() {
+        let inv = stamp();
+        let mut g = s.lock().unwrap();
+        let mut cx = Context::from_waker(&waker);
+        let r = match Pin::new(&mut *g).poll_next(&mut cx) {
+            Poll::Ready(Some(v)) => format!("R:{}", show(v)),
+            Poll::Ready(None) => "N".into(),
+            Poll::Pending => "P".into(),
+        };
+        let resp = stamp();
+        finals.push(format!("F.{k}:poll({k})>{r}@{inv}-{resp}"));
+    }
+    records.lock().unwrap().extend(finals);
     let subfin: Vec<String> = subs.iter().map(|s| show(s.lock().unwrap().next_now()).to_string()).collect();
     let mut recs = records.lock().unwrap().clone();
     recs.sort_by_key(|r| r.rsplit('@').next().unwrap().split('-').next().unwrap().parse::<u64>().unwrap());
